@@ -139,44 +139,71 @@ def decToken (d : Dec) : String :=
   let n := d.normalize
   "f" ++ (if n.neg then "1" else "0") ++ ":" ++ toString n.mant ++ ":" ++ toString n.exp
 
+/-- `val.resolve_qubit(i)[1] for i in range(n)` from index `i` on -/
+def regLoop (r : Val) : Int → Nat → M (List Int)
+  | _, 0 => pure []
+  | i, n + 1 => do
+    let (_, j) ← Resolve.resolveReg [] r i
+    let rest ← regLoop r (i + 1) n
+    pure (j :: rest)
+
+/-- `[val.resolve_qubit(i)[1] for i in range(len(val))]` for a register argument (`len` = `int(val.size)`) -/
+def regIndices (r : Val) : M (List Int) := do
+  let k ← UsedQubits.pyInt (← Resolve.resolveSize [] r)
+  regLoop r 0 k.toNat
+
+def regToken (is : List Int) : String := "r" ++ ",".intercalate (is.map toString)
+
+/-- a non-classical argument as the emulator reads it: a `Register` stands for all of its qubits in order, anything else
+must have `resolve_qubit` (a `NamedQubit`; a number raises `AttributeError`) -/
+def quantumToken (v : Val) : M String :=
+  match v with
+  | .qubit _ _ _ => do
+    let (_, i) ← Resolve.resolveQubit [] v
+    pure ("q" ++ toString i)
+  | .regF _ _ => do pure (regToken (← regIndices v))
+  | .regA _ _ => do pure (regToken (← regIndices v))
+  | .regS _ _ _ _ _ => do pure (regToken (← regIndices v))
+  | _ => throw (.other "AttributeError")
+
 /-- an argument as the summary writes it, when the emulator does not look at it -/
 def looseToken (v : Val) : String :=
   match v with
   | .int k => "i" ++ toString k
   | .flt d => decToken d
-  | .qubit _ _ _ =>
-    match Resolve.resolveQubit [] v with
-    | .ok (_, i) => "q" ++ toString i
-    | .error _ => "q?"
-  | _ => "?"
+  | _ =>
+    match quantumToken v with
+    | .ok t => t
+    | .error _ => "?"
 
 /-- `for param, val in zip(gatedef.parameters, gate.parameters.values())`: `param.classical` raises `JaqalError` for an
-untyped parameter; a classical argument goes to the unitary as it is; for the others `val.resolve_qubit()[1]` — which for
-a REGISTER parameter is `Register.resolve_qubit()` without its index: `TypeError` (finding: a native gate that has a
-unitary and takes a register cannot be emulated) -/
+untyped parameter; a classical argument goes to the unitary as it is; of the others a `Register` is expanded into its qubits
+(since today's repair), anything else is asked for `resolve_qubit()` -/
+def emuArg (k : Kind) (v : Val) : M String :=
+  match k with
+  | .none => throw (.jaqal "no-type-for-parameter")
+  | .int => pure (looseToken v)
+  | .float => pure (looseToken v)
+  | .qubit => quantumToken v
+  | .register => quantumToken v
+
 def emuArgs : List (String × Kind) → List (String × Val) → M (List String)
   | (_, k) :: ps, (_, v) :: as => do
-    let t ← match k with
-      | .none => throw (.jaqal "no-type-for-parameter")
-      | .int => pure (looseToken v)
-      | .float => pure (looseToken v)
-      | .qubit =>
-        match v with
-        | .qubit _ _ _ => do
-          let (_, i) ← Resolve.resolveQubit [] v
-          pure ("q" ++ toString i)
-        | _ => throw (.other "AttributeError")
-      | .register => throw (.other "TypeError")
+    let t ← emuArg k v
     let ts ← emuArgs ps as
     pure (t :: ts)
   | _, as => pure (as.map (fun a => looseToken a.2))
 
-/-- `gatedefs[gate.name]` (a `JaqalError` when absent); a definition without a unitary is skipped -/
+/-- the arguments of a gate as `_make_subcircuit` reads them; a definition without a unitary is skipped -/
+def gateArgs (gd : GateDef) (args : List (String × Val)) : M (List String) :=
+  if gd.hasUnitary then emuArgs gd.params args else pure (args.map (fun a => looseToken a.2))
+
+/-- `gatedefs[gate.name]` (a `JaqalError` when absent), then the arguments -/
 def gateToken (natives : List GateDef) (name : String) (args : List (String × Val)) : M String :=
   match natives.find? (·.name == name) with
   | none => throw (.jaqal "not-a-native-gate")
   | some gd => do
-    let ts ← if gd.hasUnitary then emuArgs gd.params args else pure (args.map (fun a => looseToken a.2))
+    let ts ← gateArgs gd args
     pure (" ".intercalate (name :: ts))
 
 /-- one gate the serialiser yields -/
